@@ -17,7 +17,8 @@ def check_split_args_quotes(ctx, u, R):
     okq = cq is not None and int_type_info(dtype(cq)) is not None and int_type_info(dtype(cq))[0] == 8
     if okq:
         closes = [x for x in walk(body_of(sa_)) if x.get('kind') == 'BinaryOperator' and x.get('opcode') == '=' and (ref_decl(x['inner'][0]) or {}).get('id') == cq['id'] and int_value(x['inner'][1]) == 0]
-        okq = len(closes) == 1 and any(nf(n_) in ('(%s == s[z])' % cq['name'], '(s[z] == %s)' % cq['name']) and p_ for n_, p_ in atoms(path_facts(closes[0])))
+        from guard import subst_locals
+        okq = len(closes) == 1 and any(subst_locals(nf(n_), n_) in ('(%s == s[z])' % cq['name'], '(s[z] == %s)' % cq['name']) and p_ for n_, p_ in atoms(path_facts(closes[0])))
     ctx.check(okq, R, 'split_args|quote-kind-remembered', cq or sa_, 'a quoted section closes only on the same quote character that opened it', 'split_args does not remember which quote character opened the section: the other quote character closes it')
     # the scanner never looks behind, and a token is started in exactly one situation: a character
     # that is not inter-argument space arrives while the scanner is between arguments
@@ -39,8 +40,9 @@ def check_split_args_quotes(ctx, u, R):
     if okst:
         fs_ = [(nf(n_), p_) for n_, p_ in atoms(path_facts(starts[0]))]
         bools = {v.get('name'): v for v in walk(body) if v.get('kind') == 'VarDecl' and dtype(v) == 'bool'}
-        between = [nm for nm, p_ in fs_ if p_ and nm in bools and 'between' in nm and 'is_' not in nm]
-        notspace = [nm for nm, p_ in fs_ if not p_ and nm in bools and nm.startswith('is_')]
+        # "between arguments" state variable true, and a blank test (isblank/isspace on the character) false
+        between = [nm for nm, p_ in fs_ if p_ and nm in bools and not any(c.get('kind') == 'CallExpr' and call_name(c) in ('isblank', 'isspace') for c in walk(bools[nm]))]
+        notspace = [nm for nm, p_ in fs_ if not p_ and ('isblank(' in nm or 'isspace(' in nm or (nm in bools and any(c.get('kind') == 'CallExpr' and call_name(c) in ('isblank', 'isspace') for c in walk(bools[nm]))))]
         okst = bool(between) and bool(notspace)
         why = 'the token start is guarded by %s' % fs_
     ctx.check(okst, R, 'split_args|single-token-start', starts[0] if starts else sa_, 'a token starts only when a non-space character arrives between arguments',
@@ -130,6 +132,21 @@ def run(ctx):
     ctx.require(len(sp) == 2, 'split(string) / split(wstring) not found')
     s_str = next(f for f in sp if 'wchar_t' not in (qtype(params_of(f)[1]) or ''))
     s_w = next(f for f in sp if f is not s_str)
+
+    def impl_of(f):
+        """the function that holds the loop: f itself, or the shared template f forwards its arguments to"""
+        st = stmts_of(body_of(f))
+        if len(st) == 1 and st[0].get('kind') == 'ReturnStmt' and kids(st[0]):
+            c = next((x for x in walk(st[0]) if x.get('kind') == 'CallExpr'), None)
+            if c is not None:
+                d = callee_decl(c, u)
+                g = None
+                if d is not None:
+                    g = d if body_of(d) is not None else next((m for m in u.functions if m.get('mangledName') == d.get('mangledName') and body_of(m) is not None), None)
+                if g is not None and [(ref_decl(a_) or {}).get('id') for a_ in call_args(c)] == [p_['id'] for p_ in params_of(f)]:
+                    return g
+        return f
+    s_str, s_w = impl_of(s_str), impl_of(s_w)
     a = [nf(s) for s in stmts_of(body_of(s_str)) if s.get('kind') != 'DeclStmt'] + [nf(kids(v)[-1]) for v in walk(body_of(s_str)) if v.get('kind') == 'VarDecl' and kids(v) and v.get('name')]
     b = [nf(s) for s in stmts_of(body_of(s_w)) if s.get('kind') != 'DeclStmt'] + [nf(kids(v)[-1]) for v in walk(body_of(s_w)) if v.get('kind') == 'VarDecl' and kids(v) and v.get('name')]
     sa = [canon(x) for x in walk(body_of(s_str)) if x.get('kind') in ('BinaryOperator', 'CXXMemberCallExpr', 'ConditionalOperator')]
@@ -152,7 +169,11 @@ def run(ctx):
             e = strip(kids(dv)[-1])
             if e.get('kind') == 'ConditionalOperator':
                 c_, a_, b_ = e['inner'][:3]
-                okd = nf(c_) in ('(max_splits && (max_splits == ret.size()))', '(max_splits && (ret.size() == max_splits))') and 'npos' in canon(a_) and canon(b_) == 's.find(delim, token_start_offset)'
+                from guard import subst_locals
+                cc = subst_locals(nf(c_), c_).replace('(max_splits != 0)', 'max_splits').replace('(0 != max_splits)', 'max_splits')
+                while cc.startswith('((') and cc.endswith('))') and cc.count('(') == 2:
+                    cc = cc[1:-1]
+                okd = cc in ('(max_splits && (max_splits == ret.size()))', '(max_splits && (ret.size() == max_splits))') and 'npos' in canon(a_) and canon(b_) == 's.find(delim, token_start_offset)'
         ctx.check(okd, R, lab + '|max_splits-stops-search', dv or f, 'when max_splits pieces exist the search is skipped and the rest becomes the last piece', 'max_splits does not stop the *search* (it must not drop or truncate the remainder)')
         pushes = [c for c in walk(body) if c.get('kind') == 'CXXMemberCallExpr' and call_name(c) in ('emplace_back', 'push_back')]
         tails = [c for c in pushes if call_args(c) and canon(call_args(c)[0]) == 's.substr(token_start_offset)']
@@ -162,7 +183,7 @@ def run(ctx):
             nxt = [s for s in preceding_statements(tails[0])]
             blk = enclosing(tails[0], ('CompoundStmt',))
             sts = list(kids(blk))
-            okt = sts and sts[-1].get('kind') == 'BreakStmt' and any(relation(n_, p_) and 'npos' in canon(relation(n_, p_)[2]) and relation(n_, p_)[1] == '==' for n_, p_ in atoms(path_facts(tails[0])))
+            okt = sts and (sts[-1].get('kind') == 'BreakStmt' or (sts[-1].get('kind') == 'ReturnStmt' and any((y_.get('referencedDecl') or {}).get('name') == 'ret' for y_ in walk(sts[-1]) if y_.get('kind') == 'DeclRefExpr'))) and any(relation(n_, p_) and 'npos' in canon(relation(n_, p_)[2]) and relation(n_, p_)[1] == '==' for n_, p_ in atoms(path_facts(tails[0])))
             adv = [x for x in walk(enclosing(mids[0], ('CompoundStmt',))) if x.get('kind') == 'BinaryOperator' and x.get('opcode') == '=' and canon(x['inner'][0]) == 'token_start_offset']
             okt = okt and len(adv) == 1 and nf(adv[0]['inner'][1]) == '(1 + delim_offset)'
         ctx.check(okt, R, lab + '|pieces', f, 'no delimiter found: push the rest and stop; found: push [start, delim) and continue at delim + 1', 'piece emission does not follow push-rest-and-break / push-[start,delim)-and-advance-by-one')
@@ -272,7 +293,11 @@ def run(ctx):
         ctx.check(not ts, R, q.split('::')[-1] + '|no-throw', ts[0] if ts else fs[0], 'contains no throw', '%s now throws (%s): the helpers are total' % (q, src_text(ts[0], 60) if ts else ''))
     sra = u.func('phosg::str_replace_all')[0]
     asg = sorted(nf(x['inner'][1]) for x in walk(body_of(sra)) if x.get('kind') == 'BinaryOperator' and x.get('opcode') == '=' and canon(x['inner'][0]) == 'read_offset')
-    ctx.check(asg == ['(find_offset + target_size)', 's.size()'], R, 'str_replace_all|progress', sra, 'read offset moves to the end or just past the match', 'read_offset is assigned %s' % asg)
+    # after a match the cursor moves just past it (never by less: an empty advance would loop); with no
+    # match it moves to the end or the loop is left
+    past = [a_ for a_ in asg if a_ == '(find_offset + target_size)']
+    rest = [a_ for a_ in asg if a_ != '(find_offset + target_size)']
+    ctx.check(len(past) == 1 and all(a_ == 's.size()' for a_ in rest), R, 'str_replace_all|progress', sra, 'read offset moves to the end (or the loop is left) or just past the match', 'read_offset is assigned %s' % asg)
     # starts_with / ends_with compare positions
     for nm, want in (('starts_with', '0'), ('ends_with', '(s.length() - end.length())')):
         f = u.func('phosg::' + nm)[0]
